@@ -57,18 +57,16 @@ Lemma pool_ax_affine_local (ax : nat) (k : Z) (im : nimg (K:=K)) (a : list K) (b
   ival (pool_ax ax k false im) J = aff a b J + nth ax a 0 * (pool_src k (zget J ax) - of_Z (zget J ax)).
 Proof.
   intros HL Hax Hk Hj Hw Him.
-  (* the image with the window values replaced along the line is affine on the whole line: reuse pool_ax_affine on it *)
-  set (n := zget (ishape im) ax).
-  set (im' := mkI (ishape im) (fun I => if in_box (ishape im) I then (if inb (zget I ax - zget J ax * k) k then ival im I else aff a b I) else ival im I)).
+  set (n := zget (ishape im) ax) in *.
   cbn [pool_ax ival].
   replace (Z.min k (zget (ishape im) ax - zget J ax * k)) with k by lia.
   set (j := zget J ax) in *.
   assert (E : map (fun d => get_ax PZeros ax im J (j * k + d)) (zseq k)
               = map (fun d => (aff a b J + nth ax a 0 * (of_Z (j * k) - of_Z j)) + nth ax a 0 * of_Z d) (zseq k)).
-  { apply map_ext_in. intros d Hd. apply (in_zseq K) in Hd.
+  { apply map_ext_in. intros d Hd. apply in_zseq in Hd.
     rewrite (get_ax_in K) by (fold n; nia). rewrite Him by lia. rewrite (aff_upd K Kf) by auto. fold j.
     rewrite (of_Z_add K Kf). ring. }
-  rewrite E. clear im' E.
+  rewrite E. clear E.
   assert (Ek : k = Z.of_nat (Z.to_nat k)) by lia.
   assert (Hk0 : of_Z (K:=K) k <> 0) by (apply (of_Z_nz K Kf Kc); lia).
   assert (H2 : (1 + 1 : K) <> 0) by (apply (two_nz K Kf Kc)).
@@ -132,33 +130,33 @@ Proof.
     assert (LaJ : length a = length J) by congruence.
     assert (HaxJ : (step_axis s < length J)%nat) by (rewrite LJ; exact Hax).
     rewrite aff_step by auto.
+    assert (LU : forall k v, length (upd k v J) = D) by (intros; rewrite upd_length; exact LJ).
     destruct s as [c ax lo hi | pad ax al be m | ax k | ax w]; cbn [step_axis step_map fst snd run_step step_valid] in *.
     + (* crop *)
-      destruct (HV _ ltac:(now rewrite upd_length) HS) as [B E].
-      pose proof (in_box_zget _ _ ax B ltac:(now rewrite upd_length)) as R. rewrite zget_upd_same in R by auto.
-      rewrite zget_upd_same in R by (rewrite Ls; auto).
+      destruct (HV _ (LU _ _) HS) as [B E].
+      pose proof (in_box_zget _ _ ax B ltac:(rewrite upd_length; exact HaxJ)) as R. rewrite zget_upd_same in R by auto.
       cbn [crop_ax ival]. rewrite (proj2 (inb_true _ _) R), E. rewrite (aff_upd K Kf) by auto.
       rewrite (of_Z_add K Kf). ring.
     + (* interpolation *)
       destruct HS as [H0 H1].
-      destruct (HV _ ltac:(now rewrite upd_length) H0) as [B0 E0].
-      pose proof (in_box_zget _ _ ax B0 ltac:(now rewrite upd_length)) as R0. rewrite zget_upd_same in R0 by auto.
+      destruct (HV _ (LU _ _) H0) as [B0 E0].
+      pose proof (in_box_zget _ _ ax B0 ltac:(rewrite upd_length; exact HaxJ)) as R0. rewrite zget_upd_same in R0 by auto.
       apply (interp_ax_affine_local pad ax (fun j => al * of_Z j + be) m im a b J LaJ HaxJ R0 E0).
       destruct H1 as [Ht | H1]; [left; exact Ht | right].
-      destruct (HV _ ltac:(now rewrite upd_length) H1) as [B1 E1].
-      pose proof (in_box_zget _ _ ax B1 ltac:(now rewrite upd_length)) as R1. rewrite zget_upd_same in R1 by auto.
+      destruct (HV _ (LU _ _) H1) as [B1 E1].
+      pose proof (in_box_zget _ _ ax B1 ltac:(rewrite upd_length; exact HaxJ)) as R1. rewrite zget_upd_same in R1 by auto.
       split; [exact R1 | exact E1].
     + (* pooling *)
       destruct HS as (Hk & Hj & Hw & Hd).
       rewrite (pool_ax_affine_local ax k im a b J LaJ HaxJ Hk Hj Hw).
       * unfold pool_src. ring.
-      * intros d Hdd. exact (proj2 (HV _ ltac:(now rewrite upd_length) (Hd d Hdd))).
+      * intros d Hdd. exact (proj2 (HV _ (LU _ _) (Hd d Hdd))).
     + (* correlation *)
       destruct HS as (Hs1 & Hm & Hp).
       rewrite (corr_ax_affine_local ax w im a b J LaJ HaxJ Hs1 Hm).
       * ring.
-      * intros p Hpp. destruct (HV _ ltac:(now rewrite upd_length) (Hp p Hpp)) as [B E]. split; [|exact E].
-        pose proof (in_box_zget _ _ ax B ltac:(now rewrite upd_length)) as R. rewrite zget_upd_same in R by auto. exact R.
+      * intros p Hpp. destruct (HV _ (LU _ _) (Hp p Hpp)) as [B E]. split; [|exact E].
+        pose proof (in_box_zget _ _ ax B ltac:(rewrite upd_length; exact HaxJ)) as R. rewrite zget_upd_same in R by auto. exact R.
 Qed.
 
 (* ---------- chains of any length ---------- *)
